@@ -33,6 +33,10 @@ Require Import UV.Gen.Consts UV.Gen.C17Consts UV.Mcount.Model UV.Mcount.Forest U
 Local Open Scope N_scope.
 """
 
+# which variant of two decision points the code under test implements (determined by the dedicated witnesses
+# before the generated cases run; False/False = the code as found, True = with proposed-fixes/C17-2 / C17-3)
+VARIANT = {"fix_var": False, "fix_drop": False}
+
 KEY_ARGS = "read-diff-lost-with-args"
 KEY_VAR = "watch-var-copy-never-updated"
 KEY_DROP = "watch-event-survives-filtered-call"
@@ -69,11 +73,25 @@ def obs_model(o):
             "branch": o["branch"], "cpu": o["cpu"], "var": o["var"]}
 
 
+OVALS = {}          # literal -> name: every distinct observation is defined once per cases file (parsing is the cost)
+
+
 def coq_oval(o):
     m = obs_model(o)
-    return "(Build_oval [%s] [%s] [%s] [%s] [%s] (%d)%%Z %d)" % (
+    lit = "(Build_oval [%s] [%s] [%s] [%s] [%s] (%d)%%Z %d)" % (
         "; ".join(map(str, m["statm"])), "; ".join(map(str, m["pf"])), "; ".join(map(str, m["cycle"])),
         "; ".join(map(str, m["cache"])), "; ".join(map(str, m["branch"])), m["cpu"], m["var"])
+    if lit not in OVALS:
+        OVALS[lit] = "ov%d" % len(OVALS)
+    return OVALS[lit]
+
+
+def oval_defs():
+    return "".join("Definition %s := %s.\n" % (n, lit) for lit, n in OVALS.items())
+
+
+SZ_LIT = "[%s]" % "; ".join("(%d, %d)" % (256 * i, z) for i, z in enumerate(mch.SIZES))
+SHARED = "Definition SZ : list (N * N) := %s.\nDefinition NT : N := 18446744073709551615.\n" % SZ_LIT
 
 
 # ---------------------------------------------------------------- cases
@@ -314,8 +332,10 @@ def run_case(h, case, slot=0):
 # ---------------------------------------------------------------- Coq serialisation
 def coq_xcfg(case):
     rd = "; ".join("(%d, %d)" % (256 * k, sum(KIND_BIT[x] for x in ks)) for k, ks in sorted(case["reads"].items()))
-    return "(mkxcfg %s [%s] %s %s %s)" % (F.coq_cfg(case["cfg"], mch.SIZES), rd, coq.coq_bool(case["wcpu"]),
-                                           coq.coq_bool(case["wvar"]), coq.coq_bool(case["pmu"]))
+    return "(mkxcfg %s [%s] %s %s %s %s %s)" % (F.coq_cfg(case["cfg"], mch.SIZES).replace(SZ_LIT, "SZ"), rd,
+                                                 coq.coq_bool(case["wcpu"]), coq.coq_bool(case["wvar"]),
+                                                 coq.coq_bool(case["pmu"]), coq.coq_bool(VARIANT["fix_var"]),
+                                                 coq.coq_bool(VARIANT["fix_drop"]))
 
 
 def coq_xevs(evs):
@@ -334,9 +354,9 @@ def coq_xcall(c):
 
 
 def coq_states(states):
-    return "[%s]" % "; ".join("((%s%%Z, %s%%Z, %d, %d, %d, %d, %d, %d, %s), (%d, %s, (%d)%%Z))" % (
-        coq.zlit(s[0]), coq.zlit(s[1]), s[2], s[3], s[4], s[5], s[6], s[7], coq.coq_bool(s[8]),
-        s[9], coq.coq_bool(s[10]), s[11]) for s in states)
+    return "[%s]" % "; ".join("((%s%%Z, %s%%Z, %d, %d, %s, %d, %d, %d, %s), (%d, %s, (%d)%%Z))" % (
+        coq.zlit(s[0]), coq.zlit(s[1]), s[2], s[3], "NT" if s[4] == M64 else str(s[4]), s[5], s[6], s[7],
+        coq.coq_bool(s[8]), s[9], coq.coq_bool(s[10]), s[11]) for s in states)
 
 
 def coq_items(items):
@@ -392,7 +412,7 @@ def watch_spec_applicable(case):
             pending += 1
         if o["var"] != v0:
             left = True
-        elif left and case["wvar"]:
+        elif left and case["wvar"] and not VARIANT["fix_var"]:
             return False            # back at the initial value: known defect class (copy never updated)
         prev_cpu, prev_var = o["cpu"], o["var"]
         if pending > 4:
@@ -462,6 +482,11 @@ def case_defs(cases):
     return defs
 
 
+def with_shared(defs):
+    """prepend the shared constants and the interned observations (call after ALL terms have been built)"""
+    return SHARED + oval_defs() + defs
+
+
 def evaluate(ctx, cases):
     defs = case_defs(cases)
     # flags: which checker applies to which case
@@ -473,21 +498,23 @@ def evaluate(ctx, cases):
     defs += "Definition timchk : list bool := [%s].\n" % "; ".join(map(coq.coq_bool, tim))
     spec = [(i, c) for i, c in enumerate(cases) if c["klass"] == "plain" and c["complete"] and read_calls_positive(c)
             and F_height(c["xforest"]) <= (c["cfg"].get("max_stack") or 1024)]
+    defs += ("Definition d0 : xcfg * list xev * list xobs * list oitem := "
+             "(mkxcfg (mkcfg [] false false 0 0 0 [] PG) [] false false false false false, [], [], []).\n")
     defs += "Definition speccases : list bool := [\n%s\n].\n" % ";\n".join(
-        "ok_read_spec %s %d %d [%s] %s" % (coq_xcfg(c), c["cfg"].get("threshold") or 0,
-                                           c["cfg"]["depth"] if c["cfg"].get("depth") is not None else 1024,
-                                           "; ".join(coq_xcall(k) for k in c["xforest"]), coq_items(c["res"]["items"]))
-        for _, c in spec)
+        "(let '(a, _, _, r) := nth %d cases d0 in ok_read_spec a %d %d [%s] r)" % (
+            i, c["cfg"].get("threshold") or 0, c["cfg"]["depth"] if c["cfg"].get("depth") is not None else 1024,
+            "; ".join(coq_xcall(k) for k in c["xforest"]))
+        for i, c in spec)
     wsp = [(i, c) for i, c in enumerate(cases) if c["klass"] == "watch0" and watch_spec_applicable(c)]
     defs += "Definition watchcases : list bool := [\n%s\n].\n" % ";\n".join(
-        "%s && %s" % (
-            ("ok_watch_cpu [%s] %s" % ("; ".join("(%d)%%Z" % e[3]["cpu"] for e in c["evs"]), coq_items(c["res"]["items"])))
-            if c["wcpu"] else "true",
-            ("ok_watch_var %d [%s] %s" % (c["evs"][0][3]["var"], "; ".join(str(e[3]["var"]) for e in c["evs"]),
-                                          coq_items(c["res"]["items"]))) if c["wvar"] else "true")
-        for _, c in wsp)
+        "(let '(_, _, _, r) := nth %d cases d0 in %s && %s)" % (
+            i,
+            ("ok_watch_cpu [%s] r" % "; ".join("(%d)%%Z" % e[3]["cpu"] for e in c["evs"])) if c["wcpu"] else "true",
+            ("ok_watch_var %d [%s] r" % (c["evs"][0][3]["var"], "; ".join(str(e[3]["var"]) for e in c["evs"])))
+            if c["wvar"] else "true")
+        for i, c in wsp)
     T = "(xcfg * list xev * list xobs * list oitem)"
-    res = coq.run_cases(ctx, "c17_cases", PRE, defs, [
+    res = coq.run_cases(ctx, "c17_cases", PRE, with_shared(defs), [
         ("mismatch", "bad_indices (fun c : %s => let '(a, b, o, r) := c in agree_x a b o r) cases 0" % T),
         ("nested", "bad_indices (fun p : %s * bool => let '((a, b, o, r), chk) := p in negb chk || ok_nested_x r) "
                    "(combine cases nestchk) 0" % T),
@@ -527,6 +554,98 @@ def evaluate(ctx, cases):
                                                        "events and watch state + the stream with events)"}), False)
 
 
+# ---------------------------------------------------------------- dedicated witnesses of the defects found
+def finding(ctx, key, text, still, replay):
+    """listed in known-findings.txt -> KNOWN-FINDING line; not (yet) listed -> recorded as proposed finding
+    (proposed-fixes/C17-*.diff and the proposed known-findings lines are in proposed-fixes/); a witness that no
+    longer fails is not an error"""
+    ctx.extra.setdefault("defect_witnesses", {})[key] = "still fails" if still else "no longer reproduces"
+    if still and not ctx.kf.listed(ctx.prop, key):
+        ctx.log("PROPOSED-FINDING (not listed in known-findings.txt yet): property=%s key=%s %s" % (ctx.prop, key, text))
+        ctx.extra.setdefault("proposed_findings", []).append({"key": key, "what": text, "replay": replay})
+        return
+    ctx.known_finding(key, text, still_fails=still, replay=replay)
+
+
+def parse_raw_tail(hexs, first_payload):
+    """records that follow an ENTRY/EXIT record with payload in a DUMP line: the harness prints the rest of the
+    buffer; payloads of ENTRY/EXIT records have `first_payload` bytes here (one 8-byte argument / return value)"""
+    b = bytes.fromhex(hexs)
+    off = first_payload
+    out = []
+    while off + 16 <= len(b):
+        t = int.from_bytes(b[off:off + 8], "little")
+        w = int.from_bytes(b[off + 8:off + 16], "little")
+        ty, more, addr = w & 3, (w >> 2) & 1, w >> 16
+        off += 16
+        if ty == 3:
+            ln = int.from_bytes(b[off:off + 2], "little") if more else 0
+            data = b[off + 2:off + 2 + ln]
+            if more:
+                off += (ln + 2 + 7) & ~7
+            out.append(("E", t, addr, [int.from_bytes(data[i:i + 8], "little") for i in range(0, len(data), 8)]))
+        else:
+            if more:
+                off += first_payload
+            out.append(("R", t, ty))
+    return out
+
+
+def witnesses(ctx):
+    h = mch.Harness(ctx)
+    # (1) read= and argument capture in one frame: the diff event is lost.  The slot above the frame is primed with
+    #     a known size word first (f3 with one argument at depth 1), so that the entry-side guard is deterministic.
+    env = {"UFTRACE_TRIGGER": "f0@read=page-fault", "UFTRACE_ARGUMENT": "f0@arg1;f3@arg1"}
+    script = ["VAL pagefault 5", "E 2 1000", "EA 3 1010 7", "X 1020", "X 1030", "EA 0 5000 7", "VAL pagefault 9", "X 5200",
+              "DUMP"]
+    out, _ = run_script(h, script, env, 90)
+    tail = []
+    for l in out:
+        if l.startswith("R ") and " RAW" in l:          # the dump prints the rest of the buffer at the first payload
+            tail = parse_raw_tail(l.split("RAW", 1)[1], 8)
+            break
+    ids = [e[2] for e in tail if e[0] == "E" and e[1] in (5000, 5200)]
+    has_read, has_diff = 100002 in ids, 100004 in ids
+    ctx.case(key=("witness", KEY_ARGS), tags=["known:" + KEY_ARGS], sample={"script": script, "env": env, "events_after_entry": ids})
+    if not tail or not has_read:
+        ctx.violation("C17: a function with read=page-fault and one captured argument has no read event after ENTRY",
+                      {"mode": "witness", "script": script, "env": env, "out": out[-12:]}, True)
+    finding(ctx, KEY_ARGS, "read= trigger together with argument/return-value capture on the same function: the diff event is "
+            "never recorded (save_trigger_read's overlap guard adds the word at the EVENT pointer - the read event's time "
+            "stamp - to the buffer start)", has_read and not has_diff,
+            {"mode": "witness", "script": script, "env": env})
+    # (2) -W var: a change back to the value at the thread's first hook is not reported
+    script = ["VAL var 3", "E 0 100", "VAL var 4", "E 1 110", "VAL var 3", "X 120", "X 200", "DUMP"]
+    env = {"UFTRACE_WATCH": "var:verif_watched_var"}
+    out, _ = run_script(h, script, env, 91)
+    vals = [it[3][0] for it in parse_stream(out) if it[0] == "E" and it[2] == ID_VAR]
+    ctx.case(key=("witness", KEY_VAR), tags=["known:" + KEY_VAR], sample={"script": script, "var_events": vals})
+    VARIANT["fix_var"] = vals == [4, 3]
+    if vals not in ([4], [4, 3]):
+        ctx.violation("C17: -W var reports %r for the observed sequence 3,4,3,3" % (vals,),
+                      {"mode": "witness", "script": script, "env": env, "out": out[-12:]}, True)
+    finding(ctx, KEY_VAR, "-W var:NAME: save_watchpoint compares with the thread's copy made at its first hook and never "
+            "updates it: the observed sequence 3,4,3 yields one event (4) instead of two (4,3)", vals == [4],
+            {"mode": "witness", "script": script, "env": env})
+    # (3) watch events of a call dropped by the time filter are recorded anyway
+    script = ["VAL cpu 3", "E 0 100", "VAL cpu 4", "E 1 110", "VAL cpu 5", "X 120", "E 2 130", "X 190", "X 200", "DUMP"]
+    env = {"UFTRACE_WATCH": "cpu", "UFTRACE_THRESHOLD": "50"}
+    out, _ = run_script(h, script, env, 92)
+    st = parse_stream(out)
+    cpus = [(it[1], it[3][0]) for it in st if it[0] == "E" and it[2] == ID_CPU]
+    f1 = [it for it in st if it[0] == "R" and it[5] == 256]
+    ctx.case(key=("witness", KEY_DROP), tags=["known:" + KEY_DROP], sample={"script": script, "cpu_events": cpus})
+    VARIANT["fix_drop"] = not ((109, 4) in cpus or (119, 5) in cpus)
+    ctx.extra["code_variant"] = dict(VARIANT)
+    if f1 or (101, 3) not in cpus:
+        ctx.violation("C17: time-filtered call recorded / first watch event missing in the drop witness",
+                      {"mode": "witness", "script": script, "env": env, "out": out[-12:]}, True)
+    finding(ctx, KEY_DROP, "watch events queued by a call that the time filter drops are recorded with the next record "
+            "(mcount_exit_filter_record tests event.idx < mtdp->idx before idx is decremented, keeping the exiting frame's "
+            "own events): f1 (10 ns, -t 50ns) is absent, its cpu=4 / cpu=5 events are present",
+            (109, 4) in cpus or (119, 5) in cpus, {"mode": "witness", "script": script, "env": env})
+
+
 def F_height(xf):
     def h(c):
         return 1 + max([h(k) for k in c["kids"]] or [0])
@@ -561,6 +680,7 @@ def run(ctx):
     meta(ctx)
     coq.prove(ctx, "C17")
     build.get_build("plain", ctx.log)
+    witnesses(ctx)          # first: they also tell which variant of the two repaired decision points the code has
     inproc(ctx)
 
 
@@ -569,6 +689,7 @@ def replay(ctx, obj):
     coq.prove(ctx, "C17")
     if obj.get("mode") != "inproc" or "events" not in obj:
         return run(ctx)
+    witnesses(ctx)
     h = mch.Harness(ctx)
     cfg = obj["cfg"]
     cfg["trig"] = {int(k): v for k, v in cfg.get("trig", {}).items()}
@@ -578,7 +699,7 @@ def replay(ctx, obj):
     case["res"] = run_case(h, case)
     ctx.case(key="replay", sample=sample_of(case))
     T = "(xcfg * list xev * list xobs * list oitem)"
-    r = coq.run_cases(ctx, "c17_replay", PRE, case_defs([case]), [
+    r = coq.run_cases(ctx, "c17_replay", PRE, with_shared(case_defs([case])), [
         ("agree", "forallb (fun c : %s => let '(a, b, o, r) := c in agree_x a b o r) cases" % T),
         ("nested", "forallb (fun c : %s => let '(a, b, o, r) := c in ok_nested_x r) cases" % T),
         ("adjacent", "forallb (fun c : %s => let '(a, b, o, r) := c in ok_adjacent a r) cases" % T),
